@@ -16,7 +16,9 @@ RULE = ("All 400 (dimension 2..5, number 1..100) functions are constructed in bo
         "every other minimum > -1, declared optimum = that minimiser); (2) reproducibility: tables and values at five "
         "fixed points equal golden/gkls_reference.json (recorded from the pinned commit), GKLS(3,1)(0.9,0.5,0.3) "
         "equals the repository test's constant, constructing the function again after other functions gives "
-        "bit-identical tables; (3) Hypothesis-generated points (quick 150, thorough 1500 per function): minimisers, "
+        "bit-identical tables, and an object built for another number, used inside every ball and switched with "
+        "function.SetFunctionNumber(k) has the tables and the values (78 probe points over all balls) of a newly "
+        "built GKLS(n,k); (3) Hypothesis-generated points (quick 150, thorough 1500 per function): minimisers, "
         "points inside each ball (radius fraction weighted to 0 and 1), pairs straddling a ball boundary at relative "
         "distance 1e-7..1e-3, points outside every ball - checked against paraboloid / lower bound f_i / exact f_i / "
         "a derived slope bound. Non-trivial: a generated case that evaluates the cubic branch (strictly inside a "
